@@ -25,7 +25,10 @@
                            parent release in Clear for DataInner) reached the span's own collector.  Its negation is the
                            known finding F2 ([C05_F2_refuted]).
     The reference-count races INSIDE the calls (every schedule of fetch_add / fetch_sub / on_close / clear over any number
-    of threads) are the [C05_sched_*] theorems about Registry/Micro.v. *)
+    of threads) are the [C05_sched_*] theorems about Registry/Micro.v (idealised: clearing a slot is one step of the closer)
+    and the [C05_sched_real_*] theorems about Registry/MicroReal.v (faithful to what forced schedules of the real code
+    showed: slot guards, deferred clear by the last guard holder, nested CLOSE_COUNT), with the known finding F51
+    ([C05_F51_refuted]) and its repair as a parameter read off the source by the translator. *)
 From Coq Require Import List NArith Bool Arith.
 From TV Require Import Registry.Model Registry.Inv Registry.Run Registry.C05Proofs Registry.Single.
 From TV Require Registry.Micro Registry.MicroProofs Registry.MicroReal Registry.MicroRealProofs.
